@@ -2,6 +2,7 @@ CHECK = {
     "level": "fault_enumeration",
     "assumptions": [
         "a fresh, never reused instance of the underlying library (compress/gzip, compress/zlib, klauspost/compress/zstd, andybalholm/brotli, golang/snappy) is a correct codec for the algorithm the HTTP name denotes (gzip=RFC 1952, deflate=zlib RFC 1950, br, zstd, snappy framing format); it is the oracle for what the wrappers in internal/compression do around it",
+        "a caller of Write owns the slice again as soon as Write returns (io.Writer contract) and may overwrite it before the next Write / Close; a peer may send, under the name of an encoding, a well-formed message of a neighbouring format - that is a malformed message for the instance that receives it",
         "single-goroutine use of one instance (as a pool hands it out); no concurrent use of the same instance; two instances are used from one goroutine with their operations interleaved (Reset and the reads that follow are separate operations), which stands for two messages in flight at a time",
         "peer unit: the reference server is started in-process through createServer (HTTP/1.1, loopback TCP) and fed by a plain net/http client with hand-built Connect unary and gRPC-Web bodies; only compressible contents are sent, so that the compressed form stays below the receive limit (the limit being applied to the compressed bytes as well is C19's known finding)",
         "operations on an instance that was never Reset (Read/Write/Close before the first Reset) are outside the pooled protocol: a panic there is recorded as an outcome, not as a violation",
@@ -11,7 +12,7 @@ CHECK = {
     "manifest": {
         "engine": "ENUM",
         "technique": "bounded-exhaustive breadth-first search over operation histories of a pooled instance, with complete single-fault enumeration (every bit flip, every truncation) of the input stream, against independent decoders",
-        "text": "For each of the 6 encodings and 5 inputs (empty, 1 byte, repetitive, 256 distinct bytes, 64 KB pseudo-random) every history of length <=3 (quick) / <=4 (thorough) over the operations of one compressor (Reset to buffer/io.Discard/failing sink, Write, Close) or decompressor (decode valid, decode corrupt, Reset(http.NoBody), Close, Read, pool-put) obtained once from compression.GetCompressor/GetDecompressor is replayed on a fresh instance and followed by the oracle: the decompressor must return exactly the original bytes for the valid stream, the compressor's output must be decoded to the original by an independent decoder; corrupt ranges over every single-bit flip and every proper prefix of the valid stream of the short inputs; no operation may panic. Histories over TWO instances (of the same encoding: length <=3 [4], inputs (ab300, bytes256), (empty, a) [+ (a, lcg64k)]; of two different encodings, all 30 ordered pairs: length <=2 [3]; compressors one shorter): operations {V, S Reset(valid) only, D read all, C, X, P} / {B, W, X, D} on either instance in every interleaving, the second instance created at the start or at its first use, followed by the interleaved oracle phase 0S 1S 0D 1D (0B 1B 0W 1W 0X 1X): every instance must return / emit ITS OWN input. A peer unit sends, to the reference server built by createServer {no receive limit, 200 KiB [+1 MiB]} x {plain, reference mode}, Unary requests as Connect unary and gRPC-Web, compressed with each encoding by {compression.GetCompressor, a fresh library encoder}, of serialized size 8 and 2^k-1, 2^k, 2^k+1 (k = 10..17 [..20]) up to the limit, limit-1 and limit, contents {zeros, half pseudo-random}: accepted, echoed request identical, response (same encoding offered) decodable by the library decoder. A further unit checks that the same name denotes the same algorithm in compression.GetCompressor/GetDecompressor, tracer.GetDecompressor, the reference server's checkCompression mapping, the constructor pairs the reference server and client register with connect-go, the raw-payload encoder and the independent codecs, in both directions.",
+        "text": "For each of the 6 encodings and 5 inputs (empty, 1 byte, repetitive, 256 distinct bytes, 64 KB pseudo-random) every history of length <=3 (quick) / <=4 (thorough) over the operations of one compressor (Reset to buffer/io.Discard/failing sink, Write, Close) or decompressor (decode valid, decode corrupt, Reset(http.NoBody), Close, Read, pool-put) obtained once from compression.GetCompressor/GetDecompressor is replayed on a fresh instance and followed by the oracle: the decompressor must return exactly the original bytes for the valid stream, the compressor's output must be decoded to the original by an independent decoder; corrupt ranges over every single-bit flip and every proper prefix of the valid stream of the short inputs and, for every input, over the well-formed message of each neighbouring format (bare RFC 1951 deflate compressed / stored, zlib, gzip, zstd, snappy block, snappy framed, brotli, plain bytes, two gzip members, zlib with trailing bytes; own format excluded) - whether the instance rejects or tolerates it, the later valid message must decode exactly; every compressor history is run for 7 ways of handing the message to Write (the input slice itself; 1, 2, 3 pieces from ONE transfer buffer that the caller overwrites after each Write returns; io.Copy; io.CopyBuffer with a 16-byte buffer; a 16-byte bufio.Writer; quick tier: the 64 KB input only whole, in 2 pieces and by io.Copy) with the same round-trip oracle; no operation may panic. Histories over TWO instances (of the same encoding: length <=3 [4], inputs (ab300, bytes256), (empty, a) [+ (a, lcg64k)]; of two different encodings, all 30 ordered pairs: length <=2 [3]; compressors one shorter): operations {V, S Reset(valid) only, D read all, C, X, P} / {B, W, X, D} on either instance in every interleaving, the second instance created at the start or at its first use, followed by the interleaved oracle phase 0S 1S 0D 1D (0B 1B 0W 1W 0X 1X): every instance must return / emit ITS OWN input. A peer unit sends, to the reference server built by createServer {no receive limit, 200 KiB [+1 MiB]} x {plain, reference mode}, Unary requests as Connect unary and gRPC-Web, compressed with each encoding by {compression.GetCompressor, a fresh library encoder}, of serialized size 8 and 2^k-1, 2^k, 2^k+1 (k = 10..17 [..20]) up to the limit, limit-1 and limit, contents {zeros, half pseudo-random}: accepted, echoed request identical, response (same encoding offered) decodable by the library decoder. A further unit checks that the same name denotes the same algorithm in compression.GetCompressor/GetDecompressor, tracer.GetDecompressor, the reference server's checkCompression mapping, the constructor pairs the reference server and client register with connect-go, the raw-payload encoder and the independent codecs, in both directions.",
         "note": "Fresh library instances are trusted as oracle. Multi-corruption histories use representatives (stated in the rule). Concurrency on one instance is not explored.",
         "design_ref": "DESIGN.md §2.2, §4 C20",
     },
